@@ -454,6 +454,17 @@ func C11(c *core.Ctx, replay string) {
 						}
 					}
 				}
+				if op.versioned {
+					// the versioned operations have two multi-step stretches; name the window by stretch
+					switch {
+					case op.name == "vdelete-latest" && (cc.Window == "current-removed" || cc.Window == "attrs-written" || cc.Window == "published" || cc.Window == "previous-promoted"):
+						cc.Window = "promotion-in-progress"
+					case cc.Window == "version-copy-in-progress" || cc.Window == "version-copied" || cc.Window == "body-copied" || cc.Window == "attrs-written":
+						cc.Window = "version-copied-change-pending"
+					case cc.Window == "marker-set":
+						cc.Window = "marker-half-set"
+					}
+				}
 				if only != nil && only.Hit != cc.Hit {
 					continue
 				}
